@@ -1,0 +1,71 @@
+//go:build verif
+
+// Contracts for Equal (pointer.go).  The postconditions are the documented rules of Equal,
+// stated for the direction "Equal said true, hence ...": every way two values can differ within
+// one node must make Equal answer false.
+package capnp
+
+//@ spec
+//@ func minInt(a, b int) int {
+//@ 	if a < b {
+//@ 		return a
+//@ 	}
+//@ 	return b
+//@ }
+//@ func isStructP(p Ptr) bool { return p.seg != nil && p.flags.ptrType() == structPtrType }
+//@ func isListP(p Ptr) bool   { return p.seg != nil && p.flags.ptrType() == listPtrType }
+//@ func dataOf(p Ptr) []byte  { return p.seg.data[p.off : p.off+address(p.size.DataSize)] }
+//@ func ptrSlotNull(p Ptr, i int) bool {
+//@ 	return LE64(p.seg.data, int(M(p.off)+M(p.size.DataSize)+8*M(i))) == 0
+//@ }
+//@ func lflags(p Ptr) listFlags { return p.flags.listFlags() }
+//@ end
+
+//@ func Client.IsSame -> r
+//@   -- capability identity is decided by capability.go (lock-protected hook resolution); its
+//@   -- result is an opaque boolean here, and comparing a released client is a caller error
+//@   trusted
+//@   modifies nothing
+
+//@ func Interface.Client -> r
+//@   trusted
+//@   modifies nothing
+
+//@ func isZeroFilled -> r
+//@   props C17 C18
+//@   ensures r == forall(0, len(b), func(j int) bool { return b[j] == 0 })
+//@   loop 0 "range b"
+//@     invariant 0 <= rangeidx && rangeidx <= len(b)
+//@     invariant forall(0, rangeidx, func(j int) bool { return b[j] == 0 })
+
+//@ func Equal -> eq, err
+//@   props C17 C01
+//@   requires wfPtr(p1) && wfPtr(p2)
+//@   -- null only equals null
+//@   ensures nullnull: implies(p1.seg == nil && p2.seg == nil, eq && err == nil)
+//@   ensures nullother: implies((p1.seg == nil) != (p2.seg == nil), !eq && err == nil)
+//@   -- different kinds of things are never equal
+//@   ensures kinds: implies(p1.seg != nil && p2.seg != nil && p1.flags.ptrType() != p2.flags.ptrType(), !eq && err == nil)
+//@   -- lists: equal lists have equal length
+//@   ensures listlen: implies(eq && err == nil && isListP(p1) && isListP(p2), p1.lenOrCap == p2.lenOrCap)
+//@   loop 0 "i < n"
+//@     invariant 0 <= i && i <= n && n <= int(s1.size.PointerCount) && n <= int(s2.size.PointerCount)
+//@   loop 1 "i < int(s1.size.PointerCount)"
+//@     invariant n <= i && i <= int(s1.size.PointerCount)
+//@     invariant forall(n, i, func(k int) bool { return ptrSlotNull(p1, k) })
+//@   loop 2 "i < int(s2.size.PointerCount)"
+//@     invariant n <= i && i <= int(s2.size.PointerCount)
+//@     invariant forall(n, i, func(k int) bool { return ptrSlotNull(p2, k) })
+//@     invariant forall(n, int(s1.size.PointerCount), func(k int) bool { return ptrSlotNull(p1, k) })
+//@   loop 3 "i < l1.Len()"
+//@     invariant 0 <= i
+//@   -- structs (checked where the struct case concludes equality): common data bytes equal, surplus
+//@   -- data bytes zero on whichever side is longer, surplus pointer slots of either side null
+//@   assert before "return true, nil#1" [C17] structdata: forall(0, minInt(int(p1.size.DataSize), int(p2.size.DataSize)), func(j int) bool { return dataOf(p1)[j] == dataOf(p2)[j] })
+//@   assert before "return true, nil#1" [C17] structzero1: forall(int(p2.size.DataSize), int(p1.size.DataSize), func(j int) bool { return dataOf(p1)[j] == 0 })
+//@   assert before "return true, nil#1" [C17] structzero2: forall(int(p1.size.DataSize), int(p2.size.DataSize), func(j int) bool { return dataOf(p2)[j] == 0 })
+//@   assert before "return true, nil#1" [C17] structptrs1: forall(int(p2.size.PointerCount), int(p1.size.PointerCount), func(i int) bool { return ptrSlotNull(p1, i) })
+//@   assert before "return true, nil#1" [C17] structptrs2: forall(int(p1.size.PointerCount), int(p2.size.PointerCount), func(i int) bool { return ptrSlotNull(p2, i) })
+//@   -- element sizes alone decide inequality only between two primitive lists (a primitive list is
+//@   -- otherwise read as a list of structs holding that value as sole field)
+//@   assert in "if l1.flags&isCompositeList == 0 && l2.flags" [C17] sizerule: l1.flags&isCompositeList == 0 && l2.flags&isCompositeList == 0 && l1.size != l2.size
